@@ -49,7 +49,7 @@ func Attribute(m Mismatch, running string) string {
 			return "C02"
 		case has("!badsig", "!nosig", "!wrongkey", "!newkeys"):
 			return "C03"
-		case has("!plus1", "!minus1", "!fee1", "!tax", "!zero", "block!payout"):
+		case has("!plus1", "!minus1", "!fee1", "!tax", "!zero", "block!payout", "!sfwrap", "!scwrap"):
 			return "C01"
 		case has("!early", "!timing", "immature", "!era", "!phpast", "!wspast", "!nowindow"):
 			return "C08"
@@ -179,6 +179,9 @@ func runBehaviour(c *vlib.Ctx, p Params, cfgForPayload any, beh *Behaviour, o Ru
 		for _, t := range step.Txs {
 			local.Txs++
 			local.Tags[fmt.Sprintf("v%d:%s", t.Ver, t.Tag)]++
+		}
+		if step.BDefect != "" {
+			local.Tags["block!"+step.BDefect]++
 		}
 		if o.Hook != nil {
 			o.Hook(sim, beh, i, step, r)
